@@ -521,14 +521,14 @@ def _cli_interrupt_job(args):
 
     class FakeStdin:
         buffer = _io.BufferedReader(Slow(), buffer_size=WIN * SW * CH)
-    old = aio.sys.stdin
-    aio.sys.stdin = FakeStdin
+    old = sys.stdin
+    sys.stdin = FakeStdin
     try:
         argv = ["-", "-r", str(RATE), "-w", str(SW), "-c", str(CH), "-a", repr(BD), "-n", repr(mn * BD), "-m", repr(mx * BD), "-s", repr(ms * BD),
                 "-e", "50", "-O", out_wav, "--printf", "{id} {start} {end} {duration}"]
         ob = run_cli(argv, None, interrupt_after=after)
     finally:
-        aio.sys.stdin = old
+        sys.stdin = old
     res = {"argv": argv, "pattern": pattern, "interrupt_after_sleeps": after, "read_delay_ms": delay_ms, "status": ob["status"], "exception": ob["exc"],
            "alive": ob["alive"], "stdout": ob["stdout"][:800]}
     what = None
